@@ -18,13 +18,30 @@ Nd(i) == Log[i]
 RecB(j) == [flag |-> j.flag, valid |-> j.valid, temp |-> j.temp, last |-> j.last, dh |-> j.dh, dbool |-> j.dbool, hasres |-> j.hasres, rate |-> j.rate]
 Pos(nd) == nd.args.rL # <<>>
 
+(* ghost outage clock: age in blocks (capped at the gap) of the FIRST zero sample since the last positive one, -1 when there is none. *)
+(* It is kept by the ghost itself, from the samples and block distances of the behaviour, NOT read from the record's own field:       *)
+(* a record whose stored outage start is wrong must not be able to talk the ghost out of a reset.                                     *)
+RECURSIVE Z(_)
+ZAged(nd) == LET z0 == Z(nd.parent) IN IF z0 < 0 THEN z0 ELSE Min2(z0 + nd.args.dh, nd.args.gap)
+ZStep(z, found, pos) == IF ~found THEN -1 ELSE IF ~pos /\ z < 0 THEN 0 ELSE IF pos /\ z > 0 THEN -1 ELSE z
+Z(i) ==
+  LET nd == Nd(i) IN
+  IF nd.a = "Init" THEN (IF nd.st.pre.found THEN nd.st.pre.d ELSE -1)
+  ELSE LET z == ZAged(nd) IN
+       IF nd.st.panic THEN z
+       ELSE IF nd.a = "Cycle" THEN
+            LET b1 == BandHook(Arrive(RecB(nd.st.preb), nd.args.kind, 1), nd.args.gap)
+            IN IF b1.valid /\ b1.hasres THEN ZStep(z, nd.st.pre.found, Pos(nd)) ELSE z
+       ELSE IF nd.a = "Sample" THEN ZStep(z, nd.st.pre.found, Pos(nd))
+       ELSE z
+
 (* ghost window in limbs: positive samples since the last reset, last n kept *)
 RECURSIVE G(_)
 G(i) ==
   LET nd == Nd(i) IN
   IF nd.a = "Init" THEN <<>>
   ELSE LET g == G(nd.parent)
-           w == Age(Rec(nd.st.pre), nd.args.dh, nd.args.gap)
+           w == [Age(Rec(nd.st.pre), nd.args.dh, nd.args.gap) EXCEPT !.d = ZAged(nd)]
            n == nd.args.n
        IN IF nd.st.panic THEN g
           ELSE IF nd.a = "Cycle" THEN
